@@ -41,3 +41,15 @@ def instrument(files):
                 except OSError:
                     pass
     return {os.path.join(core.REPO, f): os.path.join(out, f) for f in files}, report, None
+
+
+def selftest(files, run_regex, timeout=900):
+    """Trusted-base check for the instrumenter: the repository's OWN tests for the instrumented files must
+    pass on the instrumented build (wrappers are pass-throughs when no controlled run is active).
+    Returns (ok, output tail)."""
+    ov, rep, err = instrument(files)
+    if err:
+        return False, err
+    rt = [f for f in core.harness_files("none") if f.endswith("common_vsched_rt.go")]
+    rc, out, _ = core.go_test("selftest", run_regex, {}, extra_replace=ov, timeout=timeout, files=rt)
+    return rc == 0, out[-1500:]
